@@ -244,4 +244,21 @@ func gen(rng *vh.Rng, n int, emit func(id string, sel int, in []int64, kind stri
 		}
 		emit(fmt.Sprintf("podgroup-%d", i), 4, w.T, "createOrUpdatePodGroup/"+kind, mode != 0, nil)
 	}
+	// createJobPod: several replicas of one task built in one pass
+	for i := 0; i < n; i++ {
+		r := rng.Fork()
+		sp := genSpec(r, false)
+		k := r.Intn(len(sp.Tasks))
+		w := &jobctl.W{}
+		w.Spec(sp)
+		w.Z(int64(r.Intn(4)), int64(r.Intn(3)), int64(k))
+		m := r.Range(1, 4)
+		w.Z(int64(m))
+		base := r.Intn(3)
+		for x := 0; x < m; x++ {
+			w.Z(int64(base + x*r.Range(1, 2)))
+		}
+		t := sp.Tasks[k]
+		emit(fmt.Sprintf("createpod-%d", i), 6, w.T, "createJobPod", m >= 2 && (t.Cpu > 0 || t.Mem > 0), nil)
+	}
 }
